@@ -153,6 +153,41 @@ Theorem C15_mission_distance_symmetric :
 Proof. exact mission_distance_symmetric. Qed.
 Print Assumptions C15_mission_distance_symmetric.
 
+(* the two theorems above are statements about the SCRIPTS (same four arguments in the same order / a symmetric oracle).
+   Bridged to the ground track: with points = (longitude, latitude) pairs and [inv4] the coordinate-wise spelling of the
+   same pyproj call as [inv], the mission distance is the total length of the great-circle track between the airports
+   (via C15_great_circle_total_is_geodesic_distance), and its symmetry reduces to the symmetry of the geodesic distance
+   itself — a law of the oracle (pyproj), spot-checked on every run (evidence: geodesic_law_residuals_m.dist_sym). *)
+Theorem C15_mission_distance_is_ground_track_total :
+  forall (inv : (R * R) -> (R * R) -> R * R) (inv4 : R -> R -> R -> R -> R),
+    (forall a b : R * R, inv4 (fst a) (snd a) (fst b) (snd b) = snd (inv a b)) ->
+    forall olon olat dlon dlat al,
+      evald inv4 (@gc_distance RNum false olon olat dlon dlat)
+      = @total RNum (track_of (R * R) inv [(olon, olat); (dlon, dlat)] al).
+Proof. exact mission_distance_is_ground_track_total. Qed.
+Print Assumptions C15_mission_distance_is_ground_track_total.
+
+Theorem C15_mission_distance_symmetric_from_geodesic_symmetry :
+  forall (inv : (R * R) -> (R * R) -> R * R) (inv4 : R -> R -> R -> R -> R),
+    (forall a b : R * R, inv4 (fst a) (snd a) (fst b) (snd b) = snd (inv a b)) ->
+    forall olon olat dlon dlat, (forall p q, snd (inv p q) = snd (inv q p)) ->
+      evald inv4 (@gc_distance RNum false olon olat dlon dlat) = evald inv4 (@gc_distance RNum false dlon dlat olon olat).
+Proof. exact mission_distance_symmetric_from_geodesic. Qed.
+Print Assumptions C15_mission_distance_symmetric_from_geodesic_symmetry.
+
+(* azimuths: every azimuth expression the model returns (leg azimuth, inverse from / to the computed point) evaluates to
+   a forward azimuth of an inverse problem of the oracle, and what GroundTrack.Point reports is norm360 of it: in [0, 360)
+   and congruent mod 360, given pyproj's range.  Real-number statement; in binary64 a tiny negative raw value gives
+   exactly 360.0 (Python: -1e-20 % 360.0 == 360.0), which the harness oracle accepts (0 <= az <= 360). *)
+Theorem C15_reported_azimuth_in_0_360 :
+  forall (P : Type) (inv : P -> P -> R * R) (fwd : P -> R -> R -> P) (dflt : P) wps al a,
+    (forall p q, -360 <= fst (inv p q) < 360) ->
+    0 <= reported_azimuth P inv fwd dflt wps al a < 360 /\
+    (reported_azimuth P inv fwd dflt wps al a = evala P inv fwd dflt wps al a \/
+     reported_azimuth P inv fwd dflt wps al a = evala P inv fwd dflt wps al a + 360).
+Proof. exact reported_azimuth_range. Qed.
+Print Assumptions C15_reported_azimuth_in_0_360.
+
 (* as coded before the repair F13: (lat, lon, lat, lon) *)
 Theorem C15_mission_distance_args_before_fix_refuted :
   exists inv4, (forall x1 y1 x2 y2, inv4 x1 y1 x2 y2 = inv4 x2 y2 x1 y1) /\
